@@ -85,8 +85,14 @@ def job(j: dict) -> dict:
                 out.append(d)
         return _norm(out, root)
 
-    single = {f: cli([rels[f - 1]]) for f in range(1, j["n"] + 1)}
     recs = []
+    if j.get("parallel"):
+        # the CLI's other way of running the same target: `--parallel` (18 files: the pool is used up to 8 workers)
+        whole = cli(["--parallel", "."])
+        recs.append({"law": "apicli", "kind": "dir", "sel": list(range(1, j["n"] + 1)), "api": idseq(api(".")),
+                     "cli": idseq(whole), "whole": [], "parts": []})
+        return {"recs": recs, "rev": rev}
+    single = {f: cli([rels[f - 1]]) for f in range(1, j["n"] + 1)}
     for kind, sel in j["targets"]:
         if kind == "file":
             f = sel[0]
@@ -179,6 +185,15 @@ def run(chk) -> None:
                          "targets": dir_and_files, "config": "base", "explicit": None,
                          "shared_names": not (force and 4 in force and force[4] in ("tstwins", "selfdup")), "force": force,
                          "root": str(scratch_root() / f"c10-{len(jobs)}" / "proj")})
+    for ci, cmd in enumerate(cmds):
+        if quick and cmd not in ("dry", "stringly-typed", "nesting", "magic-numbers", "unwrap-abuse"):
+            continue
+        for layout in (("flat",) if quick else ("flat", "samename")):
+            # which files end up next to each other (and so in one task, if tasks hold several files) depends on the offset
+            for off in ([0, 5, 10] if cmd in ("dry", "stringly-typed") else [[0, 5, 10][ci % 3]]):
+                jobs.append({"n": 18, "cross": [[1, 2, 3], [4, 18], [9, 10], [11, 13]], "layout": layout, "offset": off,
+                             "cmd": cmd, "targets": [], "config": "base", "explicit": None, "parallel": True,
+                             "root": str(scratch_root() / f"c10-{len(jobs)}" / "proj")})
     log(f"C10: {len(jobs)} jobs x <= {len(targets)} targets")
     res = pool.run_jobs(job, jobs, nproc=NCPU, timeout=600)
     records, meta = [], []
@@ -193,6 +208,8 @@ def run(chk) -> None:
         case = {"cmd": j["cmd"], "layout": j["layout"], "offset": j["offset"], "kind": rec["kind"],
                 "config": j["config"], "explicit": j["explicit"],
                 "sel": rec["sel"], "law": rec["law"]}
+        if j.get("parallel"):
+            case["cli_flags"] = ["--parallel"]
         if j.get("pats") is not None:
             case["pats"] = j["pats"]
         if j.get("shared_names"):
@@ -210,6 +227,8 @@ def run(chk) -> None:
             relation = {"dir": "DirVsFiles", "list": "ListVsFiles"}[rec["kind"]] if rec["law"] == "union" else "ApiVsCli"
             side = "whole/api only" if (Counter(a) - Counter(b)) else "parts/cli only"
             key = {"rule": v["rule_id"], "relation": relation, "target": rec["kind"]}
+            if j.get("parallel"):
+                key["cli_flags"] = "--parallel"
             if j.get("pats"):
                 key["ignore_patterns"] = sorted({p["kind"] for p in j["pats"]})
             if j.get("shared_names"):
